@@ -86,6 +86,12 @@ def group_join_(
                 for right_value in right_map.values():
                     subject.on_next(right_value)
 
+                if group.is_disposed:
+                    # the subscriber unsubscribed (outer subscription and every
+                    # group) inside on_next: no duration mapper call and no
+                    # duration subscription on its behalf any more
+                    return
+
                 md = SingleAssignmentDisposable()
                 group.add(md)
 
